@@ -1,6 +1,7 @@
 import VermouthModel.Proto
 import VermouthModel.C16
 import VermouthModel.C16_Format
+import VermouthProps.C16Total
 import Generated.C16Layout
 open Proto C16
 
@@ -13,6 +14,8 @@ Protocol of driver_c16 (layouts come from Generated.C16Layout):
   growritep <precision> <system>           -> ok [ xLINE ... ]   (write_gro(precision=...))
   groread  [ xEXCL ... ] <ignh> [ xLINE ... ] -> ok [ atom ... ]            | err <name>
 
+  pdbtrunc <system>                        -> ok [ mol ... ] | skip      (closed form `truncAtomOf` of the totality
+  grotrunc <system>                        -> ok [ atom ... ] | skip      theorems, when `atomKeepB` / `groKeepB` hold)
   fmtfield xSPEC <val>                     -> ok xTEXT | err valueerror|notimplemented|unmodelled
                                               (TruncFormatter.format_field; val = [ 0 int ] | [ 1 xSTR ] | [ 2 scaled ])
 
@@ -128,6 +131,21 @@ def handle (_ : Unit) (toks : List Tok) : Unit × String :=
           match atoms.mapM encGAtom with
           | none => pure "err scale"
           | some as => pure ("ok " ++ encList as)
+    | [Tok.str "pdbtrunc", s] => do
+        let sys ← sysOf s
+        if allSysB (atomKeepB []) 1 sys then
+          match (expectedMols truncAtomOf 1 sys).mapM (fun m => (m.mapM encPAtom).map encList) with
+          | none => pure "err scale"
+          | some ms => pure ("ok " ++ encList ms)
+        else pure "skip"
+    | [Tok.str "grotrunc", s] => do
+        let sys ← sysOf s
+        let ps := groPairs 1 sys
+        if !ps.isEmpty && ps.all (fun p => groKeepB [] p.2) then
+          match (ps.map fun p => truncGAtomOf p.1 p.2).mapM encGAtom with
+          | none => pure "err scale"
+          | some as => pure ("ok " ++ encList as)
+        else pure "skip"
     | [Tok.str "fmtfield", sp, v] => do
         let spec ← sp.str?
         let val ← valOf v
